@@ -94,7 +94,9 @@ def run_path(h: Harness, prefix, twin: bool, acc, want_sample: bool):
     except RecursionError as e:
         status = "error"
         acc["errors"].append("RecursionError")
-    except Exception as e:  # escaping exception: harness error (harnesses catch what they expect)
+    except (KeyboardInterrupt, SystemExit):
+        raise
+    except BaseException as e:  # escaping exception: harness error (harnesses catch what they expect)
         status = "error"
         acc["errors"].append(
             f"{type(e).__name__}: {e}\n" + "".join(traceback.format_exc(limit=12))
